@@ -52,6 +52,16 @@ Definition setup_generator_args (refs : list bytes) (gf : gflags) : res sexp :=
     end
   else Ok (generator_args_full refs).
 
+(* run_block_generator (since fix e4597dd2): simple generators take no block references; the check sits right
+   before the references are consed into the ROM's arguments *)
+Definition check_simple_refs (refs : list bytes) (gf : gflags) : res unit :=
+  if g_simple gf then
+    match refs with
+    | [] => Ok tt
+    | _ :: _ => Err GeneratorRuntimeError            (* TooManyGeneratorRefs *)
+    end
+  else Ok tt.
+
 Definition deser_program (program : bytes) : res sexp :=
   match node_from_bytes_backrefs program with
   | Some t => Ok t
@@ -101,6 +111,7 @@ Section Gen.
     cost_left <- subtract_cost max_cost byte_cost ;;
     prog <- deser_program program ;;
     _ <- check_generator_node prog gf ;;
+    _ <- check_simple_refs refs gf ;;
     '(clvm_cost, generator_output) <- run_program ROM (rom_args prog refs) cost_left ;;
     cost_left1 <- subtract_cost cost_left clvm_cost ;;
     '(ret, spends, pairs) <- parse_spends valid_key H K fl VEmpty generator_output cost_left1 LEGACY_CLVM_COST_PER_SPEND ;;
